@@ -1495,7 +1495,44 @@ func checkSortCompletion(p *Prog, r *Report) {
 			}
 		}
 		if len(scanned) == 0 {
-			r.ok("C08.sort-completion", key, p.pos(spread.Pos()), "no list is scanned while the rules are completed (membership decided otherwise: not covered)")
+			// membership through a local set of names: the set must receive a
+			// name only where the rule that carries it is appended to the kept list
+			var sets []*ssa.MakeMap
+			for b := range loop {
+				for _, i2 := range b.Instrs {
+					if lk, ok := i2.(*ssa.Lookup); ok {
+						if mk, ok := lk.X.(*ssa.MakeMap); ok {
+							sets = append(sets, mk)
+						}
+					}
+				}
+			}
+			if len(sets) == 0 {
+				r.ok("C08.sort-completion", key, p.pos(spread.Pos()), "no list is scanned while the rules are completed (membership decided otherwise: not covered)")
+				return
+			}
+			bad := ""
+			for _, mk := range sets {
+				for _, ref := range referrers(mk) {
+					mu, ok := ref.(*ssa.MapUpdate)
+					if !ok {
+						continue
+					}
+					appends := false
+					for _, i2 := range mu.Block().Instrs {
+						if c, ok := i2.(*ssa.Call); ok && builtinName(c.Common()) == "append" && len(c.Common().Args) == 2 {
+							if sameListVar(stripValue(c.Common().Args[0]), stripValue(K)) || sameListVar(stripValue(K), ssa.Value(c)) {
+								appends = true
+							}
+						}
+					}
+					if !appends {
+						bad = p.describe(mu)
+					}
+				}
+			}
+			r.decide(bad == "", "C08.sort-completion", key, p.pos(spread.Pos()), "the set of mentioned names receives a name only where its rule is kept",
+				"the set that decides which attributes are still missing is filled ("+bad+") where no rule is appended to the kept list: a rule that was dropped still hides its attribute, so String() of the parsed URL does not parse back to the same rules")
 			return
 		}
 		bad := ""
